@@ -132,7 +132,9 @@ def run(tier, seed):
     docs, meta3 = [], {}
     for k, (v, lit) in enumerate([(5, "+5"), (7, "007"), (0, "-0"), (5, " 5"), (5, "5 "), (V["max_p1"], "+9007199254740992"),
                                   (V["max"], "+9007199254740991"), (V["max"], "09007199254740991"), (0, ""),
-                                  (V["min_m1"], "-09007199254740992")]):
+                                  (V["min_m1"], "-09007199254740992"), (V["max_p1"], "--9007199254740992"), (2**63 - 1, "--9223372036854775807"),
+                                  (V["min_m1"], "-+9007199254740992"), (V["max_p1"], "+-9007199254740992"), (5, "--5"), (5, "0x5"), (V["max_p1"], "9007199254740992.0"),
+                                  (V["max_p1"], "9_007_199_254_740_992"), (V["max_p1"], "\u0669007199254740992")]):
         for route in ("from_str", "from_plain"):
             cid = "s%d.%s" % (k, route)
             docs.append(json.dumps({"id": cid, "route": route, "value": str(v), "lit": lit}))
